@@ -148,13 +148,11 @@ def cases(tier, seed):
                 for split in (False, True):
                     spec = _spec(cls, cons, speculative, split)
                     reqs = [(k, p) for k in _alphabet(cls, spec) for p in range(3)]
-                    if len(reqs) ** (L - 1) > 40000:
-                        for first in range(len(reqs)):
-                            for second in range(len(reqs)):
-                                yield {"mode": "exhaustive", "cls": cls, "cons": cons, "speculative": speculative, "split": split, "prefix": [first, second], "L": L}
-                    else:
-                        for first in range(len(reqs)):
-                            yield {"mode": "exhaustive", "cls": cls, "cons": cons, "speculative": speculative, "split": split, "prefix": [first], "L": L}
+                    plen = 1
+                    while len(reqs) ** (L - plen) > 3000 and plen < L:
+                        plen += 1
+                    for pre in itertools.product(range(len(reqs)), repeat=plen):
+                        yield {"mode": "exhaustive", "cls": cls, "cons": cons, "speculative": speculative, "split": split, "prefix": list(pre), "L": L}
     for i in range(60 if tier == "quick" else 1500):
         yield {"mode": "sampled", "i": i}
     for i in range(60 if tier == "quick" else 1000):
